@@ -58,6 +58,12 @@ SHAPES = {
     'shapeF': {'channels': [{'name': 'SR', 'samples': [
         {'name': 'signal', 'data': ['s0', 's1'], 'modifiers': [ns('normfactor', 'mu'), ns('staterror', 'stat_SR', ['es0', 'es1'])]},
         {'name': 'bkg', 'data': ['b0', 'b1'], 'modifiers': [ns('shapesys', 'uncorr', ['u0', 'u1']), ns('staterror', 'stat_SR', ['eb0', 'eb1'])]}]}]},
+    # fixed parameters keep their constraint terms: a luminosity held constant by the measurement (configured width), and an MC-statistical
+    # bin without uncertainty (literal 0: the construction fixes that component and gives its term unit width)
+    'shapeH': {'channels': [{'name': 'SR', 'samples': [
+        {'name': 'signal', 'data': ['s0', 's1'], 'modifiers': [ns('normfactor', 'mu'), ns('lumi', 'lumi')]},
+        {'name': 'bkg', 'data': ['b0', 'b1'], 'modifiers': [ns('staterror', 'stat_SR', ['e0', 0.0])]}]}],
+        'parameters': [{'name': 'lumi', 'auxdata': [1.0], 'sigmas': [0.05], 'bounds': [[0.5, 1.5]], 'inits': [1.0], 'fixed': True}]},
 }
 
 NORM_FN = {'code1': 'Interp.slow1 P', 'code4': 'Interp.slow4 P (1.0 : K)'}
@@ -80,7 +86,7 @@ def build(spec, **kw):
 
 
 BATCHED = ('shapeB', 'shapeC')      # shapes also evaluated with batch_size=2
-BATCHED_LOGPDF = ('shapeF',)        # shapes whose batched `logpdf` (two parameter rows, two data rows) and batched `expected_data` are translated
+BATCHED_LOGPDF = ('shapeF', 'shapeH')        # shapes whose batched `logpdf` (two parameter rows, two data rows) and batched `expected_data` are translated
 
 
 def symbols(spec):
@@ -143,6 +149,10 @@ def formula(spec, channels, par_index):
     return out
 
 
+def lean_num(x):
+    return x if isinstance(x, str) else sx.lean_const(x)
+
+
 def constraint_terms(spec, info, par_index):
     """one term per constrained parameter component, in config.auxdata_order, with widths / factors written from the specification"""
     mods = {}      # name -> list of (type, channel, sample, modifier)
@@ -164,8 +174,11 @@ def constraint_terms(spec, info, par_index):
                 terms.append(f'lpois {a} ({th} * ((P.pow {smp0["data"][i]} (2.0 : K)) / (P.pow {m0["data"][i]} (2.0 : K))))')
             elif t0 == 'staterror':
                 decl = [(smp, m) for (t, c, smp, m) in mods[n]]
+                if all(isinstance(m['data'][i], (int, float)) and m['data'][i] == 0 for smp, m in decl):
+                    terms.append(f'lnorm {a} {th} (1.0 : K)')      # no uncertainty in this bin: the component is fixed and its term has unit width
+                    continue
                 tot = '(' + ' + '.join(smp['data'][i] for smp, m in decl) + ')'
-                ssum = '(' + ' + '.join(f'(P.pow ({m["data"][i]} / {tot}) (2.0 : K))' for smp, m in decl) + ')'
+                ssum = '(' + ' + '.join(f'(P.pow ({lean_num(m["data"][i])} / {tot}) (2.0 : K))' for smp, m in decl) + ')'
                 sg = f'(P.sqrt {ssum})'      # positive data: the width does not vanish (a vanishing width would be replaced by 1 and the parameter fixed)
                 terms.append(f'lnorm {a} {th} {sg}')
             else: raise ValueError(t0)
